@@ -195,13 +195,13 @@ def sendCore (c : Cfg) (s : State) (pk : Pk) (expected : Pattern) (timeout : Nat
 def isPrefix (p d : Pattern) : Bool := p.length ≤ d.length && p == d.take p.length
 
 /-- the loop of `_check_for_answers` over the registered patterns, in dictionary order, as coded
-(`if len(match) >= len(longest_match): longest_match = match`) -/
+(`if len(match) >= len(longest_match): longest_match = match`; the comparison is `Gen.C10.checkBetter`) -/
 def longestMatch (d : Pattern) : Dict → Pattern → Pattern
   | [], lm => lm
   | (p, _) :: r, lm =>
     if isPrefix p d then
       let m := d.take p.length
-      longestMatch d r (if m.length ≥ lm.length then m else lm)
+      longestMatch d r (if Gen.C10.checkBetter m.length lm.length then m else lm)
     else longestMatch d r lm
 
 /-- `_check_for_answers(pk)` with `data = (pk.header,) + tuple(pk.data)` -/
